@@ -20,6 +20,34 @@ def read_all(root: Path):
     return out
 
 
+def compiles_all(root: Path):
+    """does CPython accept the file AS BYTES (honouring a PEP 263 coding cookie / BOM)?  relpath -> bool, for .py files"""
+    import warnings
+    out = {}
+    for p in sorted(root.rglob("*.py")):
+        if p.is_file() and not p.is_symlink():
+            try:
+                with warnings.catch_warnings():
+                    warnings.simplefilter("ignore")
+                    compile(p.read_bytes(), str(p), "exec", dont_inherit=True)
+                out[str(p.relative_to(root))] = True
+            except (SyntaxError, ValueError, RecursionError):
+                out[str(p.relative_to(root))] = False
+    return out
+
+
+SETUP_PY = '''from setuptools import setup
+
+setup(
+    name="proj",
+    version="0.1",
+    install_requires=[
+        "requests>=2.0",
+    ],
+)
+'''
+
+
 def apply_once(root: Path, codemod_id: str, tool, results_path):
     from codemodder.context import CodemodExecutionContext
     from codemodder.project_analysis.python_repo_manager import PythonRepoManager
@@ -53,15 +81,22 @@ def main():
             for name, text in sub["files"].items():
                 p = root / name
                 p.parent.mkdir(parents=True, exist_ok=True)
-                p.write_bytes(text.encode("utf-8"))
-            (root / "requirements.txt").write_text("# deps\nrequests==2.31.0\n")
+                enc = (sub.get("encodings") or {}).get(name)
+                p.write_bytes(text.encode(enc) if enc else text.encode("utf-8"))
+            # the manifest that receives a needed dependency alternates between the kinds (setup.py is itself Python source)
+            if sub.get("manifest", "requirements.txt") == "setup.py" and "setup.py" not in sub["files"]:
+                (root / "setup.py").write_text(SETUP_PY)
+            else:
+                (root / "requirements.txt").write_text("# deps\nrequests==2.31.0\n")
             results_path = None
             if sub["tool"]:
                 results_path = root / "sast_results"
                 results_path.write_text(sub["results"] or "")
             rec["before"] = read_all(root)
+            rec["compiles_before"] = compiles_all(root)
             rec["pass1"] = apply_once(root, job["codemod"], sub["tool"], results_path)
             rec["after1"] = read_all(root)
+            rec["compiles_after1"] = compiles_all(root)
             rec["pass2"] = apply_once(root, job["codemod"], sub["tool"], results_path)
             rec["after2"] = read_all(root)
         except Exception:
